@@ -582,6 +582,26 @@ func authDirected(o authGenOpts) []Case {
 		g.add(b2)
 		cases = append(cases, g.Case(fmt.Sprintf("directed:overwide cfg=%d", cfgKind)))
 
+		// 2b. the same refusal on a pre-emptive acquisition (challenge already known, refresh token):
+		// the narrow retry must still ask for what this request requires
+		g = newAuthCaseGen(NewRNG(1), o)
+		g.cfg(0, cfgKind)
+		a = mk(0, 0, pull, "")
+		a.reg[0] = regReply{status: 401, hdrs: []string{bearerHdr(realm0, "svc0", pull)}}
+		allTok(a, tokReply{kind: 'j', token: "Tpull", refresh: "Nfresh-RT", exp: 3600})
+		g.add(a)
+		b = mk(0, 1, push, pull)
+		allTok(b, tokReply{kind: 's', status: 401})
+		b.tok[0][1][0], b.tok[0][1][1] = grantTok("TnarrowPre", 3600), grantTok("TnarrowPreG", 3600)
+		b.reg[0] = regReply{status: 401, hdrs: []string{bearerHdr(realm0, "svc0", push)}}
+		b.reg[1] = regReply{status: 401}
+		g.add(b)
+		b2 = mk(0, 2, "repository:bar:pull", both)
+		allTok(b2, tokReply{kind: 's', status: 401})
+		b2.tok[0][1][0], b2.tok[0][1][1] = grantTok("TnarrowBar", 3600), grantTok("TnarrowBarG", 3600)
+		g.add(b2)
+		cases = append(cases, g.Case(fmt.Sprintf("directed:overwide-preemptive cfg=%d", cfgKind)))
+
 		// 3. no OAuth2 POST endpoint (404): GET with Basic
 		g = newAuthCaseGen(NewRNG(1), o)
 		g.cfg(0, cfgKind)
